@@ -17,7 +17,7 @@ from .. import common, gen, priorgrid_corr as pc, spans_corr as sc
 from ..common import Result, Violation, f2h, h2f
 
 META = dict(
-    level='Lean theorems over the prior-grid model (any ordered field; cdf/ppf uninterpreted): stored row = 0 :: c*(F(t_i)-F(t_{i-1})) with one positive constant c (row_mass), first entry 0, entries non-negative when the cdf values are non-decreasing along the grid, largest entry exactly 1 (over columns >= 1 and over all columns); create_timepoints = 0 :: sorted permutation of the selected quantiles, non-decreasing for non-negative quantiles, strictly increasing iff the selected quantiles are positive and pairwise distinct, always containing every quantile of the k=2 row, each step adding exactly the quantiles of percentiles farther than max_sep from all projected points, and (when cdf inverts ppf on the percentiles) every percentile of every row ending within max_sep of a grid point; nonfixed_nodes = the non-sample node ids, each once, sorted by time, and row_lookup gives a grid row to exactly those; explicit timepoints are stored exactly (sorted) whenever the two time transforms are mutually inverse on them (proved for a constant size; C17 for general histories). Model tied bit-for-bit at Float to the real functions with scipy cdf/ppf values as oracle data. Outside: the scipy distribution functions (contract: monotone cdf, positive quantiles - evaluated per input), float rounding of the time-scale round trip (known finding explicit-timegrid-returned-up-to-rounding when within rtol 1e-12, violation beyond), the mixture parameters feeding the rows (C14/C15).',
+    level='Lean theorems over the prior-grid model (any ordered field; cdf/ppf uninterpreted): stored row = 0 :: c*(F(t_i)-F(t_{i-1})) with one positive constant c (row_mass), first entry 0, entries non-negative when the cdf values are non-decreasing along the grid, largest entry exactly 1 (over columns >= 1 and over all columns); create_timepoints = 0 :: sorted permutation of the selected quantiles, non-decreasing for non-negative quantiles, strictly increasing iff the selected quantiles are positive and pairwise distinct, always containing every quantile of the k=2 row, each step adding exactly the quantiles of percentiles farther than max_sep from all projected points, and (when cdf inverts ppf on the percentiles) every percentile of every row ending within max_sep of a grid point; nonfixed_nodes = the node ids whose NODE_IS_SAMPLE flag is clear (derived from the flags column, wherever the samples sit in the node table), each once, sorted by time, and row_lookup gives a grid row to exactly those; explicit timepoints are stored exactly (sorted) whenever the two time transforms are mutually inverse on them (proved for a constant size; C17 for general histories). Model tied bit-for-bit at Float to the real functions with scipy cdf/ppf values as oracle data. Outside: the scipy distribution functions (contract: monotone cdf, positive quantiles - evaluated per input), float rounding of the time-scale round trip (known finding explicit-timegrid-returned-up-to-rounding when within rtol 1e-12, violation beyond), the mixture parameters feeding the rows (C14/C15).',
     note='Lean kernel + {propext, Classical.choice, Quot.sound}; scipy.stats cdf/ppf as oracle tables; sampled bit-exact correspondence',
     technique='algebraic characterisation of the row transform and of sort/prefix structure of the timepoint construction + bit-exact model/implementation correspondence with oracle tables',
     ref='§3 C16',
@@ -64,6 +64,27 @@ def gen_timepoints(rng):
     return rng.permutation(user), "explicit"
 
 
+def renumber(ts, rng, mode):
+    """Full node renumbering including the samples (tables.subset): samples last, or a random interleaving."""
+    n = ts.num_nodes
+    is_sample = np.zeros(n, dtype=bool)
+    is_sample[ts.samples()] = True
+    if mode == "samples_last":
+        order = np.concatenate([rng.permutation(np.where(~is_sample)[0]), np.where(is_sample)[0]])
+    else:
+        order = rng.permutation(n)
+    tables = ts.dump_tables()
+    tables.subset(order.astype(np.int32), record_provenance=False)
+    tables.sort()
+    tables.build_index()
+    tables.compute_mutation_parents()
+    return tables.tree_sequence()
+
+
+def nonfixed_block(cid, ts):
+    return (cid, ["op nonfixed", "flags " + " ".join(str(int(f)) for f in ts.nodes_flags), "times " + pc.hexs(ts.nodes_time)])
+
+
 def grid_case(ctx, rng, idx, stats):
     """One prior_grid call on the implementation + the blocks the model needs."""
     from tsdate import prior
@@ -79,9 +100,16 @@ def grid_case(ctx, rng, idx, stats):
         if ok and ts2.num_edges > 0:
             ts = ts2
             fired.append("polytomy")
-    if rng.random() < 0.35:
-        ts, _ = gen.permute_nodes(ts, rng)       # node ids no longer in time order
+    r = rng.random()
+    if r < 0.2:
+        ts, _ = gen.permute_nodes(ts, rng)       # samples stay first; internal node ids no longer in time order
         fired.append("permuted")
+    elif r < 0.4:
+        ts = renumber(ts, rng, "samples_last")   # tsinfer-style numbering
+        fired.append("samples_last")
+    elif r < 0.6:
+        ts = renumber(ts, rng, "interleaved")    # samples and internal nodes interleave
+        fired.append("interleaved")
     distr = str(rng.choice(["lognorm", "gamma"]))
     pop, pop_mode = gen_pop(rng)
     tps, tp_mode = gen_timepoints(rng)
@@ -107,8 +135,7 @@ def grid_case(ctx, rng, idx, stats):
         c["rows"][u] = F
         if np.all(np.isfinite(F)):
             blocks.append(pc.model_blocks_row(f"r{idx}_{u}", F))
-    blocks.append((f"n{idx}", ["op nonfixed", f"n {ts.num_nodes}", "samples " + " ".join(map(str, samples)),
-                               "times " + pc.hexs(ts.nodes_time)]))
+    blocks.append(nonfixed_block(f"n{idx}", ts))
     if tp_mode == "int":
         c["tpc"] = pc.tp_case(distr, ts.num_samples, tps + 1)
         blocks.append((f"t{idx}", c["tpc"]["lines"]))
@@ -185,10 +212,22 @@ def evaluate_grid(c, out, res, stats):
     nonfixed = [int(x) for x in pg.nonfixed_nodes]
     if set(nonfixed) != set(range(ts.num_nodes)) - samples or len(nonfixed) != len(set(nonfixed)):
         res.violations.append(Violation("nonfixed-nodes-wrong", "nonfixed_nodes is not the set of non-sample nodes", replay))
-    for s in samples:
-        if pg.row_lookup[s] >= 0 or np.ndim(pg[s]) != 0:
-            res.violations.append(Violation("sample-node-has-grid-row", f"sample node {s} has a grid row", replay))
-            break
+    import tskit
+    flags = ts.nodes_flags
+    norow = set()
+    for u in range(ts.num_nodes):          # per node id, against the flags column
+        has_row = bool(pg.row_lookup[u] >= 0) and np.ndim(pg[u]) == 1
+        if flags[u] & tskit.NODE_IS_SAMPLE:
+            if has_row:
+                res.violations.append(Violation("sample-node-has-grid-row", f"sample node {u} has a grid row", dict(replay, node=u)))
+                break
+        elif not has_row:
+            norow.add(u)
+    if norow:
+        res.violations.append(Violation("non-sample-node-has-no-grid-row",
+                                        f"non-sample node(s) {sorted(norow)[:5]} have no grid row", dict(replay, node=min(norow))))
+    layout = "samples_first" if list(ts.samples()) == list(range(ts.num_samples)) else "samples_not_first"
+    stats["layout"][layout] = stats["layout"].get(layout, 0) + 1
     t = out.get(f"n{idx}")
     times = ts.nodes_time
     distinct = len(set(times[nonfixed])) == len(nonfixed)
@@ -198,6 +237,8 @@ def evaluate_grid(c, out, res, stats):
     # ---- rows
     nontriv = False
     for u, F in c["rows"].items():
+        if u in norow:
+            continue
         row = np.asarray(pg[u], dtype=float)
         stats["rows"] += 1
         mono, pos, rowmax = pc.row_hypotheses(F) if np.all(np.isfinite(F)) else (False, False, False)
@@ -219,7 +260,7 @@ def evaluate_grid(c, out, res, stats):
 
 def new_stats():
     return dict(rejected={}, grid={}, fired={}, rows=0, hyp_row_all=0, tp_cases=0, hyp_tp_distinct_positive=0,
-                explicit_moved_ulps=0, explicit_max_rel=0.0, explicit_grids=0, explicit_bit_exact=0, tp_direct=0)
+                layout={}, explicit_moved_ulps=0, explicit_max_rel=0.0, explicit_grids=0, explicit_bit_exact=0, tp_direct=0)
 
 
 def run_all(ctx, n_tp, n_grid, streams, res, stats):
@@ -274,7 +315,7 @@ def run(ctx):
     stats = new_stats()
     run_all(ctx, ctx.n(30, 200), ctx.n(40, 400), (1, 2), res, stats)
     res.rule = ("B: create_timepoints over (lognorm|gamma) x total tips 2..30 x n_points 3..41 and prior_grid over msprime inputs "
-                "(2..8 samples, optional missing samples / polytomies) x (lognorm|gamma) x (integer | explicit, unsorted) timepoints x "
+                "(2..8 samples, optional missing samples / polytomies, node ids renumbered: internal only / samples last / fully interleaved) x (lognorm|gamma) x (integer | explicit, unsorted) timepoints x "
                 "(float | int | 1-epoch | multi-epoch) population sizes: Lean model at Float vs implementation bit for bit "
                 "(timepoints, every row, nonfixed_nodes, stored explicit grid); C: statement on timepoints / rows / nonfixed nodes with "
                 "independently written distribution functions. Non-trivial = a grid with at least one row having two positive "
@@ -323,8 +364,7 @@ def replay(ctx, payload):
             c["rows"][u] = F
             if np.all(np.isfinite(F)):
                 blocks.append(pc.model_blocks_row(f"r0_{u}", F))
-    blocks.append(("n0", ["op nonfixed", f"n {ts.num_nodes}", "samples " + " ".join(map(str, sorted(samples))),
-                          "times " + pc.hexs(ts.nodes_time)]))
+    blocks.append(nonfixed_block("n0", ts))
     if d["tp_mode"] == "int":
         c["tpc"] = pc.tp_case(d["distr"], ts.num_samples, tps + 1)
         blocks.append(("t0", c["tpc"]["lines"]))
@@ -336,9 +376,10 @@ def replay(ctx, payload):
     print("timepoints:", [float(x) for x in pg.timepoints])
     u = d.get("node")
     if u is not None:
-        print(f"implementation row {u}:", [float(x) for x in pg[u]])
+        print(f"implementation row {u}:", [float(x) for x in np.atleast_1d(pg[u])])
         t = out.get(f"r0_{u}")
         print(f"model row {u}         :", None if t is None else [h2f(x) for x in t])
     print("violations:", [(v.kind, v.what[:100]) for v in res.violations])
     print("correspondence failures:", [(v.kind, v.what[:100]) for v in res.corr_failures])
-    return not res.violations and not res.corr_failures
+    new = [v for v in res.violations if v.kind != "explicit-timegrid-returned-up-to-rounding"]     # listed known finding
+    return not new and not res.corr_failures
